@@ -364,12 +364,27 @@ func (x *execution) gated(e tr.Ev) {
 	}
 }
 
-func (x *execution) releaseOp(p int) {
-	if po, ok := x.parked[p]; ok {
-		po.v.release()
-		<-po.done
-		delete(x.parked, p)
+// releaseOp lets the parked operation of p continue. again: its next Get (the re-read after a
+// failed compare-and-swap) parks again; if the operation completes instead, nothing stays parked.
+func (x *execution) releaseOp(p int, again bool) {
+	po, ok := x.parked[p]
+	if !ok {
+		return
 	}
+	if again {
+		parked := po.v.rearm()
+		select {
+		case <-parked:
+			return
+		case <-po.done:
+			po.v.release()
+			delete(x.parked, p)
+			return
+		}
+	}
+	po.v.release()
+	<-po.done
+	delete(x.parked, p)
 }
 
 // flush: normalise keys (order preserving, gaps capped) and write the events
@@ -482,8 +497,8 @@ func runExec(ex []tr.Ev, w *tr.Writer) {
 			x.storm(calls)
 			continue
 		case "release":
-			x.releaseOp(tr.I(e, "p"))
-			x.log(tr.Ev{"ev": "release", "p": tr.I(e, "p")})
+			x.releaseOp(tr.I(e, "p"), tr.B(e, "again"))
+			x.log(tr.Ev{"ev": "release", "p": tr.I(e, "p"), "again": tr.B(e, "again")})
 			i++
 			continue
 		}
@@ -497,7 +512,7 @@ func runExec(ex []tr.Ev, w *tr.Writer) {
 		i++
 	}
 	for p := range x.parked {
-		x.releaseOp(p)
+		x.releaseOp(p, false)
 	}
 	x.flush(w)
 }
